@@ -2,3 +2,4 @@ SPECIFICATION Spec
 CONSTANT EncAnnounceResp <- BadEncAnnounceResp
 INVARIANT Law
 CHECK_DEADLOCK FALSE
+CONSTANT NPat = 2
